@@ -107,8 +107,31 @@ def resolve_cfg(step, tm, dynamic):
     return cfg
 
 
+_CANON = {}
+
+
+def canonical_audit(where):
+    """a fixed dump (lookups, strings, dyld ops, samples, faults) decoded by a FRESH parser must read the same at any
+    time in the process: its first decoding (before this check issued any filtered request) is the reference"""
+    if 'blob' not in _CANON:
+        ops = [['call', 'BSC_open', 77, 2, 0], ['call', 'BSC_rename', 78, 2, 2], ['dyld', 'DBG_DYLD_TIMING_DLOPEN', 79, 0, 0],
+               ['threadname', '', 80, 0, 0], ['sample', '', 81, 2, 15], ['fault', '', 82, 2, 0], ['launch', '', 83, 3, 0],
+               ['tracesingle', 'TRACE_DATA_THREAD_TERMINATE', 0, 0, 0], ['newthread', '', 84, 0, 0], ['call', 'BSC_read', 85, 0, 4]]
+        spec = {'programs': [ops, ops[::-1]], 'schedule': [0, 1] * 30, 'dynamic': True, 'unmapped_last': False}
+        _CANON['blob'] = build_file(spec)[0]
+        _CANON['ref'] = baseline(_CANON['blob'])
+        return
+    now = baseline(_CANON['blob'])
+    if now != _CANON['ref']:
+        got = [(b['ts'], b['tid'], b['text']) for b in now]
+        exp = [(b['ts'], b['tid'], b['text']) for b in _CANON['ref']]
+        raise Violation('residue-across-objects', describe(f'a fixed dump decoded by a fresh parser {where} no longer reads as it did at the '
+                                                           f'start of the process (state is kept outside the parser objects)', got, exp, None))
+
+
 def prop_history(ctx, case):
     from pykdebugparser.pykdebugparser import PyKdebugParser
+    guard(canonical_audit, 'before this history')
     built = [build_file(s) for s in case['files']]
     bases = [guard(baseline, b[0]) for b in built]
     parser = PyKdebugParser()
@@ -181,6 +204,7 @@ def prop_history(ctx, case):
         fresh_now = guard(lambda: [(t.ktraces[0].timestamp, t.ktraces[0].tid, str(t)) for t in fresh().traces(BudgetReader(blob))])
         if fresh_now != exp:
             raise Violation('residue-across-objects', describe(f'a FRESH parser on dump {fi} after the history (state kept outside the object)', fresh_now, exp, None))
+    guard(canonical_audit, 'after this history')
     if any(f['dynamic'] for f in case['files']):
         cls.add('dynamic-file')
     ctx.note(None, nontrivial=repeated_under_class, classes=cls)
@@ -255,4 +279,4 @@ def callstack_strategy():
 
 def run(ctx):
     ctx.run_given('callstack_history', callstack_strategy(), prop_callstack_history, ctx.n(300, 1500))
-    ctx.run_given('history', strategy(), prop_history, ctx.n(700, 2500))
+    ctx.run_given('history', strategy(), prop_history, ctx.n(500, 2500))
